@@ -18,13 +18,16 @@ def gen_cases(ctx):
     cases = []
     for ind in KINDS:
         grid = params_grid(ind, [1, 2, 3, 5])
-        grid = r.sample(grid, min(len(grid), 5 if not ctx.thorough else 16))
+        if ind == "PPO":
+            grid = [(a, b, c, 0.0) for a in (1, 2, 3) for b in (1, 2, 3) for c in (1, 2, 3)] + [(9, 26, 9, 0.0), (26, 12, 26, 0.0)]
+        else:
+            grid = r.sample(grid, min(len(grid), 5 if not ctx.thorough else 16))
         big = [(r.choice([9, 14, 26, 100, 512]), r.choice([3, 12]), r.choice([2, 9]), 0.0) for _ in range(2 if not ctx.thorough else 6)]
         for gi, pr in enumerate(grid + big):
             k = nper(ind)
             pr = tuple(pr[i] if i < k else 0 for i in range(3)) + (0.0,)
             p = max(pr[:3] + (1,))
-            for rep in range(3 if not ctx.thorough else 8):
+            for rep in range((3 if not ctx.thorough else 8) if ind != "PPO" else 1):
                 n = r.choice([6, 3 * p + 5]) if gi < len(grid) else min(2 * p + 30, 700)
                 use_bars = ind in NO_SCALAR or (ind in ("FAST", "SLOW") and rep % 2 == 1)
                 if use_bars:
